@@ -6,7 +6,7 @@ from props.C09 import build, mk_addr
 
 RULE = ("sessions of connect, 1..12 request/response exchanges and disconnect on a real SerialHdlcTransport over a scripted "
         "serial port: answers of 1..5000 bytes with arbitrary bytes incl. flag bytes, segmentations into 1..40 information "
-        "frames of 1..128 bytes (also first segments of 1 or 2 bytes, so the LLC header is split), read granularities from "
+        "frames of 1..128 bytes (also first segments of 1 or 2 bytes, so the LLC header is split; also answers that contain the LLC header values with segments cut exactly in front of them), read granularities from "
         "whole frames down to single bytes, sequence numbers wrapping within a session; requests up to the maximum "
         "information size. The same script runs on the model. search: returned answer = APDU, request frames = LLC||APDU, "
         "receive-ready numbers, link state after connect/disconnect.  non-trivial = distinct sessions completed")
@@ -96,6 +96,15 @@ def make_session(r, nexch, ctx):
         segs = segments(r, answer, style)
         if len(segs) > 40:
             segs = segments(r, answer, "one")
+        if r.random() < 0.2:
+            # the answer itself contains the LLC header values, and the meter cuts its segments exactly in front of them:
+            # follow-up segments then begin with e6 e7 00 / e6 e6 00 / part of it, which is data and must be kept
+            pieces = [bytes(r.getrandbits(8) for _ in range(r.choice([0, 1, 3, 50, 125])))]
+            for _ in range(r.choice([1, 2, 5, 12])):
+                pieces.append(r.choice([b"\xe6\xe7\x00", b"\xe6\xe7\x00", b"\xe6\xe6\x00", b"\xe6\xe7", b"\xe6", b"\xe6\xe7\x00\xe6\xe7\x00"])
+                              + bytes(r.getrandbits(8) for _ in range(r.choice([0, 0, 1, 2, 30, 120]))))
+            answer = b"".join(pieces)
+            segs = [b"\xe6\xe7\x00" + pieces[0]] + pieces[1:]
         ns += 1
         rrs = []
         for j, sg in enumerate(segs):
